@@ -6,7 +6,7 @@ A script is a list of tuples; the same alphabet is understood by the Coq model
   ("open",) ("close",) ("send", k, pol) ("send2", k1, pol1, k2, pol2)
   ("adv", ticks) ("net", accept, latency_ticks) ("eof",) ("rst",)
   ("frame", j) ("bad", kind) ("failw",) ("reset",) ("subraise", flag)
-and, outside the model (monitors only): ("bp", on) ("subsend", k, pol) ("sendclose", k, pol)
+and, outside the model (monitors only): ("bp", on) ("subsend", k, pol) ("sendclose", k, pol) ("trunc", j, cut)
 
 The result is one list of canonical events per stimulus.
 """
@@ -389,6 +389,12 @@ class SockRunner:
             cur = net.current()
             if cur is not None:
                 cur.transport.peer_bytes(bad_input(self.gen, st[1]))
+        elif kind == "trunc":
+            # the first `cut` bytes of a good frame (the rest never comes): outside the model, monitors only
+            cur = net.current()
+            if cur is not None:
+                fr = self.rx[st[1] % len(self.rx)]
+                cur.transport.peer_bytes(fr[:max(1, min(len(fr) - 1, st[2]))])
         elif kind == "failw":
             net.fail_next_write = True
         elif kind == "reset":
